@@ -153,26 +153,30 @@ theorem df002First_of_B (T : Tables) (fid : Nat) (h : df002FirstB T fid = true) 
     simp at this
   · simp at this
 
-/-- in the current tables DF002 is field 8: a plain 12-bit unsigned field, the first entry of every
+/-- the numeric id the translator gave DF002 (whatever position it has in the regenerated table) -/
+abbrev df002Id : Nat := (T15.special.df002).getD 0
+abbrev df002Spec : FieldSpec := (T15.field? df002Id).getD ⟨[], .bit, 0, .none⟩
+
+/-- in the current tables DF002 is a plain 12-bit unsigned field, the first entry of every
     definition and named nowhere else in it -/
-theorem C15_df002_ok : DF002OK T15 8 ⟨[68, 70, 48, 48, 50], .uint, 12, .none⟩ where
+theorem C15_df002_ok : DF002OK T15 df002Id df002Spec where
   special := by decide +kernel
   field := by decide +kernel
-  ty := rfl
-  width := rfl
-  res := rfl
+  ty := by decide +kernel
+  width := by decide +kernel
+  res := by decide +kernel
   lt := by decide +kernel
   n394 := by decide +kernel
   n395 := by decide +kernel
   n396 := by decide +kernel
   n038 := by decide +kernel
-  first := df002First_of_B T15 8 (by decide +kernel)
+  first := df002First_of_B T15 df002Id (by decide +kernel)
 
 /-- **For implemented types the decoded message-number field equals the identity**: whatever the
     rest of the payload contains, if the constructor succeeds on a defined type then attribute DF002
     is the 12-bit number the identity was taken from. -/
 theorem C15_df002_is_identity (p : Bytes) (l : Nat) (m : Msg) (hc : construct T15 (some p) l = .ok m)
-    (hk : m.unknown = false) : m.attrs.get? (8, []) = some (.int m.id.num) :=
-  df002_is_identity T15 8 _ C15_df002_ok p l m hc hk
+    (hk : m.unknown = false) : m.attrs.get? (df002Id, []) = some (.int m.id.num) :=
+  df002_is_identity T15 df002Id _ C15_df002_ok p l m hc hk
 
 end Rtcm
